@@ -55,6 +55,17 @@ type readSizes struct {
 	i   int
 }
 
+// buffer returns a buffer as large as the largest size of the pattern (allocated once per decode).
+func (s *readSizes) buffer() []byte {
+	m := 4096
+	for _, k := range s.pat {
+		if k > m {
+			m = k
+		}
+	}
+	return make([]byte, m)
+}
+
 func (s *readSizes) next() int {
 	if len(s.pat) == 0 {
 		return 4096
@@ -219,8 +230,9 @@ func decode(doc []byte, srcpat, rbufpat []int) string {
 		}
 		var data []byte
 		sz := &readSizes{pat: rbufpat}
+		all := sz.buffer()
 		for {
-			buf := make([]byte, sz.next())
+			buf := all[:sz.next()]
 			n, err := dec.Read(buf)
 			data = append(data, buf[:n]...)
 			if err == io.EOF {
@@ -263,9 +275,10 @@ func ahead(doc []byte, srcpat, rbufpat []int, nreads int) string {
 		}
 		var data []byte
 		sz := &readSizes{pat: rbufpat}
+		all := sz.buffer()
 		end := "-"
 		for i := 0; i < nreads; i++ {
-			buf := make([]byte, sz.next())
+			buf := all[:sz.next()]
 			n, err := dec.Read(buf)
 			data = append(data, buf[:n]...)
 			if err == io.EOF {
